@@ -48,6 +48,10 @@ def generate(rng, idx, tier, variant):
     for _ in range(rng.choice([1, 1, 2])):
         faults = rng.random() < 0.75
         opts = S.gen_opts(rng, faults)
+        if opts['max_iter'] > 300:
+            # (four parties, every period of the range, every pass recorded: tens of thousands of passes per period are
+            # left to the single-period workloads)
+            opts['max_iter'] = rng.choice([255, 256, 300])
         if opts['errors'] == 'bogus':
             opts['errors'] = 'skip'
         if opts['min_iter'] > opts['max_iter'] and rng.random() < 0.7:
